@@ -35,6 +35,8 @@ def containment(points, src, tl, margin=1e-6):
     near = np.zeros(len(points), dtype=bool)
     for k in range(len(tl)):
         m = np.array([[b[k, 0] - a[k, 0], c[k, 0] - a[k, 0]], [b[k, 1] - a[k, 1], c[k, 1] - a[k, 1]]])
+        if abs(np.linalg.det(m)) < 1e-12:
+            continue                      # a zero-area triangle contains no point
         st = np.linalg.solve(m, (points - a[k]).T).T
         w = np.stack([1 - st[:, 0] - st[:, 1], st[:, 0], st[:, 1]], axis=1).min(axis=1)
         inside |= w > margin
@@ -194,7 +196,7 @@ def w_history(ctx, rng, i):
     d = 2 + (i % 5 == 4)
     K = tx.kinds(d) + ["R2LogR2RBF", "R2LogRRBF"]
     if d == 2 and i % 2 == 0:
-        kind = ["PiecewiseAffine", "PiecewiseAffine", "PythonPWA", "TransformChain", "ThinPlateSplines"][(i // 2) % 5]
+        kind = ["PiecewiseAffine", "PiecewiseAffine", "PythonPWA", "TransformChain", "ThinPlateSplines", "PWA_degenerate_triangle"][(i // 2) % 6]
     else:
         kind = K[(i // 2) % len(K)]
     t, recipe = tx.make(rng, kind, d)
@@ -203,12 +205,13 @@ def w_history(ctx, rng, i):
     is_pwa = isinstance(t, AbstractPWA)
     events, bclasses = set(), set()
     prev = None          # last input array object
+    last_result = None   # the array returned by the last successful array application
     last_failed = None   # values of the last failing input
     n0 = int(rng.integers(1, 13))
     for step in range(int(rng.integers(5, 31 if ctx.tier == "thorough" else 16))):
         who = live[rng.integers(0, len(live))]
         ev = ["fresh", "same_object_edited", "near_equal", "other_size", "shape", "on_copy", "repeat_values", "retry_failed",
-              "int_or_f32", "on_shared_edges", "reparameterised"][rng.integers(0, 11)]
+              "int_or_f32", "on_shared_edges", "reparameterised", "inverse_taken", "previous_result_edited"][rng.integers(0, 13)]
         n = n0
         outside = 0.35 if (is_pwa and rng.random() < 0.35) else 0.0
         if ev == "fresh" or prev is None:
@@ -232,6 +235,23 @@ def w_history(ctx, rng, i):
             live.append(c)
             x = prev.copy()
             who = c
+        elif ev == "inverse_taken":
+            # asking for the inverse is a query: afterwards the transform maps the same values to the same results
+            try:
+                with taps.quiet():
+                    who.pseudoinverse()
+            except Exception:
+                continue
+            x = prev.copy()
+        elif ev == "previous_result_edited":
+            # the caller scribbles over the array it got back earlier (it is the caller's array) and asks again
+            if last_result is None:
+                continue
+            try:
+                last_result[...] = -777.0
+            except Exception:
+                continue
+            x = prev.copy() if rng.random() < 0.5 else prev
         elif ev == "reparameterised":
             # the transform's parameters are replaced (parameter vector / new target): from now on only the new parameters count
             new_recipe = reparameterise(rng, who, kind, d, TWINS[id(who)][1])
@@ -286,7 +306,7 @@ def w_history(ctx, rng, i):
                     if tx.maxdiff(pc.landmarks["a"].points, x[::-1]) > 0 or tx.maxdiff(pc.points, x) > 0:
                         ctx.fail("application_changed_the_shape_it_was_given", cls=type(who).__name__)
             else:
-                who.apply(x, batch_size=bs)
+                last_result = who.apply(x, batch_size=bs)
             if x.dtype == float:
                 prev = x
         except TriangleContainmentError:
